@@ -36,6 +36,18 @@ theorem encoder_never_excludes_a_solution (U : Universe) (hU : MDet.WFU U) (P : 
       Sat.evalClause (MDet.muS (MDet.solveRun U P fuel s0).2 sel) (MDet.clauseLits (MDet.solveRun U P fuel s0).2 c) = true :=
   MDet.encoder_sound U hU P fuel s0 sel hv
 
+/-- **The same fact in the direction a verdict uses it** (exact model, same quantification): when the requires, constrains,
+    lock and exclusion clauses the model holds after a solve cannot all be satisfied by any assignment that makes the root
+    variable true, the hard problem has no valid selection — an `Unsolvable` verdict derived from those clauses alone is
+    right. (Contrapositive of `encoder_never_excludes_a_solution` with the root variable pinned; it is not vacuous because
+    that theorem's hypothesis, a valid selection, is met by every solvable problem.) -/
+theorem encoded_clauses_unsat_means_no_solution (U : Universe) (hU : MDet.WFU U) (P : Problem) (fuel : Nat) (s0 : MDet.S)
+    (hun : ∀ μ : Nat → Bool, μ 0 = true → ∃ c ∈ (MDet.solveRun U P fuel s0).2.clauses.toList,
+      MDet.encoded c.kind = true ∧
+        Sat.evalClause μ (MDet.clauseLits (MDet.solveRun U P fuel s0).2 c) = false) :
+    ¬ ∃ sel, Valid U P.hard sel [] :=
+  MDet.no_solution_of_encoded_unsat U hU P fuel s0 hun
+
 /-- **The decision tracker of the exact model is consistent after every solve** (`decision_tracker.rs`, `decision_map.rs`;
     every universe, problem, fuel, solver state, synchronous or asynchronous, whatever the outcome): the assignment map and
     the decision stack agree entry by entry, no variable is assigned twice, the propagation cursor stays within the stack —
